@@ -517,11 +517,13 @@ theorem bindObject_succ (n : Nat) (ih : EqAll π P n) (σ : State) (sc : List Ad
             | false =>
               have hn : π pname = pname := hfix rfl rfl pname rfl
               simp only [Bool.false_eq_true, if_false, hn]
-              have hs := ih.bindObjectProp σ sc names (.mk (.Var pname) el) b pname el decl hg (by simp only [okExpr, okRaw])
-              simp only [rExpr, rRaw, hn] at hs
-              apply Sim.bind hs
-              intro names' σ1 hg1
-              exact ih.bindObject σ1 sc names' r b decl (i + 1) total _ hg1 hr
+              split
+              · exact ih.bindObject σ sc names r b decl (i + 1) total _ hg hr
+              · have hs := ih.bindObjectProp σ sc names (.mk (.Var pname) el) b pname el decl hg (by simp only [okExpr, okRaw])
+                simp only [rExpr, rRaw, hn] at hs
+                apply Sim.bind hs
+                intro names' σ1 hg1
+                exact ih.bindObject σ1 sc names' r b decl (i + 1) total _ hg1 hr
           | _ =>
             simp only [rExpr, rRaw, Expr.raw, Expr.loc]
             exact Sim.of_eq rfl trivial
